@@ -6,7 +6,7 @@ import os
 
 ROOT = os.path.dirname(os.path.dirname(os.path.abspath(__file__)))
 rows = []
-for d in sorted(glob.glob(os.path.join(ROOT, "seeded", "*"))):
+for d in sorted((p for p in glob.glob(os.path.join(ROOT, "seeded", "*")) if os.path.isdir(p))):
     m = json.load(open(os.path.join(d, "meta.json")))
     keys: list[str] = []
     tier = ""
